@@ -795,6 +795,38 @@ impl<K: Kind> Scenario for Bf<K> {
                 }
                 inner.to_string()
             }
+            "ballast" => {
+                // ballast <count> <seed> <lo> <hi>: many live nodes over the variables lo..hi that
+                // are not tracked by the truth-table oracles (they only make collections take longer)
+                let count: usize = w[1].parse().unwrap();
+                let mut rng = crate::Rng::new(w[2].parse().unwrap());
+                let (lo, hi): (u32, u32) = (w[3].parse().unwrap(), w[4].parse().unwrap());
+                let mut pool: Vec<K::F> = Vec::new();
+                self.mref().with_manager_shared(|m| {
+                    for v in lo..hi {
+                        pool.push(K::F::var(m, v).unwrap());
+                        pool.push(K::F::not_var(m, v).unwrap());
+                    }
+                });
+                for _ in 0..count {
+                    let a = rng.pick(&pool[pool.len().saturating_sub(2000)..]).clone();
+                    let b = rng.pick(&pool).clone();
+                    let r = match rng.below(3) {
+                        0 => a.and(&b),
+                        1 => a.xor(&b),
+                        _ => a.or(&b),
+                    };
+                    if let Ok(r) = r {
+                        pool.push(r);
+                    }
+                }
+                self.state.insert("ballast".into(), Box::new(pool));
+                "ok".into()
+            }
+            "dropballast" => {
+                self.state.remove("ballast");
+                "ok".into()
+            }
             "pargc" => {
                 // a collection that may run concurrently with operations of other threads
                 self.mref().with_manager_shared(|m| m.gc());
